@@ -146,6 +146,12 @@ def w_bands(case):
         for v in samples:
             rows.append({'Time': t, 'Observable': 'x', 'Value': v,
                          'Dose': np.nan, 'Duration': np.nan})
+    # row order: time blocks ascending / descending / rows interleaved
+    ro = case.get('row_order', 'asc')
+    if ro == 'desc':
+        rows = rows[::-1]
+    elif ro == 'interleaved':
+        rows = rows[1::2] + rows[0::2]
     # an unrelated observable must not leak into the bands
     rows.append({'Time': case['samples'][0][0], 'Observable': 'other',
                  'Value': 99.0, 'Dose': np.nan, 'Duration': np.nan})
@@ -236,6 +242,8 @@ def build(tier, seed):
                         base.append([_id, 0.0, None, None, 2.0 + k, 0.5])
                         if k == 1:
                             base.append([_id, 1.0, None, None, 3.0, 0.25])
+                        # a measurement recorded in the same row as a dose
+                        base.append([_id, 3.0, 'A', 0.4 + k, 1.0 + k, 0.1])
                 n = len(base)
                 if n <= 4:
                     orders = list(itertools.permutations(range(n)))
@@ -277,7 +285,9 @@ def build(tier, seed):
                     continue
                 second = multisets[(i * 7 + 3) % len(multisets)]
                 bands.append({'cls': cls, 'probs': ps,
-                              'samples': [[0.5, ms], [1.5, second]]})
+                              'samples': [[0.5, ms], [1.5, second]],
+                              'row_order': ['asc', 'desc', 'interleaved'][
+                                  (i + 2 * j) % 3]})
     return {
         'parts': [
             Part('data', data, w_data, 'figure class x ID sets x observables x row '
